@@ -1,0 +1,22 @@
+//go:build verif
+
+package bigendian
+
+// Machine-checked contracts for /verif (read as text by the VC generator; no code).
+// be16/be32/be64: see /verif/contracts/lemmas/encoding_binary.contracts.
+//
+//@ func Uint64ToBytes
+//@   ensures  len(result) == 8 && be64(result) == n && fresh(result)
+//@ func BytesToUint64
+//@   requires len(b) >= 8
+//@   ensures  result == be64(b)
+//@ func Uint32ToBytes
+//@   ensures  len(result) == 4 && be32(result) == n && fresh(result)
+//@ func BytesToUint32
+//@   requires len(b) >= 4
+//@   ensures  result == be32(b)
+//@ func Uint16ToBytes
+//@   ensures  len(result) == 2 && be16(result) == n && fresh(result)
+//@ func BytesToUint16
+//@   requires len(b) >= 2
+//@   ensures  result == be16(b)
